@@ -37,18 +37,19 @@ def _safe(name):
     return re.sub(r"[^A-Za-z0-9_]+", "_", name)
 
 
-def extract_tests(pid, name, group, workdir, log, timeout=3600):
+def extract_tests(pid, name, group, workdir, log, timeout=1800):
     target = os.path.join(KANI_DIR, "target-%s-replay" % pid.lower())
     cmd = ["cargo", "kani", "--features", ",".join(group["features"]), "--target-dir", target,
            "-Z", "concrete-playback", "--concrete-playback=print", "--exact", "--harness", name]
     cmd += group.get("kani_args", [])
     if group.get("cbmc_args_resolved") or group.get("cbmc_args"):
         cmd += ["-Z", "unstable-options", "--cbmc-args"] + (group.get("cbmc_args_resolved") or group["cbmc_args"])
-    try:
-        p = subprocess.run(cmd, cwd=KANI_DIR, env=_env("--cfg rtcm_rs_verif"), capture_output=True, text=True, timeout=timeout)
-    except subprocess.TimeoutExpired:
+    import guard
+    logf = os.path.join(workdir, "playback_%s.log" % _safe(name))
+    rc = guard.run_guarded(cmd, KANI_DIR, _env("--cfg rtcm_rs_verif"), logf, int(group.get("mem_gb", 12)), timeout_s=timeout)
+    if rc is None:
         return []
-    out = p.stdout + p.stderr
+    out = open(logf, errors="replace").read()
     tests = []
     for m in re.finditer(r"#\[test\]\s*fn (kani_concrete_playback_\w+)\(\)\s*\{(.*?)\n\}", out, flags=re.S):
         body = m.group(2)
